@@ -57,10 +57,12 @@ fn main() {
         "c03_fold" => c03::fold(&v),
         "c03_reset_hard" => c03::reset_hard(&v),
         "c04_split" => c04::split(&v),
+        "c04_post_commit_scope" => c04::post_commit_scope(&v),
         "c05_ranges" => c05::ranges(&v),
         "c05_upsert" => c05::upsert(&v),
         "c05_state" => c05::state(&v),
         "c05_compress" => c05::compress(&v),
+        "c05_notes_batch" => c05::notes_batch(&v),
         "c06_handoff" => c06::handoff(&v),
         "c14_entry" => c14::entry(&v),
         "c14_prune_select" => c14::prune_select(&v),
